@@ -269,6 +269,10 @@ package iscp
 //@ lockinv[C16,C08] Conn.upstreamCallAckMu: forall(id, string, imp(has(self.upstreamCallAckCh, id), cap(self.upstreamCallAckCh[id]) >= 1))
 //@ lockinv[C16,C08] Conn.replyCallsChsMu: forall(id, string, imp(has(self.replyCallChs, id), cap(self.replyCallChs[id]) >= 1))
 //@ typeassume Conn: !replyKeyed(self.downstreamCallCh) && !replyKeyed(self.replyCallCh)
+// ConnectWithConfig defaults a nil Logger to log.NewNop(); streams inherit the connection's logger
+//@ typeassume Conn: self.logger != nil
+//@ typeassume Upstream: self.logger != nil
+//@ typeassume Downstream: self.logger != nil
 //@ typeassume Conn: self.state != nil && self.state.cond != nil && self.state.RWMutex != nil
 
 //@ func (*connStatus).WithCloseStatus
